@@ -29,7 +29,7 @@ Fixpoint res_records (now : Z) (rs : list record) (s : resst) : resst * list eff
   | r :: rs' =>
       if resolver_filter r (rs_name s) then
         let '(c', _, ce) := cache_add_eff now (rs_jitter s) r (rs_cache s) in
-        let report := negb (r_ttl r =? 0)%N && negb (existsb (addr_eqb (r_addr r)) (rs_addrs s)) in
+        let report := resolver_report r (existsb (addr_eqb (r_addr r)) (rs_addrs s)) in
         let s1 := mkRes c' (rs_jitter s) (rs_name s) (rs_active s) (if report then rs_addrs s ++ [r_addr r] else rs_addrs s) in
         let '(s2, e2) := res_records now rs' s1 in
         (s2, ce ++ (if report then [ESig OBJ SIG_resolved (PAddr (r_addr r))] else []) ++ e2)
